@@ -48,7 +48,7 @@ MenuC10Q == {NoScript} \cup {Sc(o, i, 0) : o \in {"CloneRoot", "DropRoot", "Upgr
                        \cup {Sc("Adopt", i, j) : i \in Obj, j \in Obj}
 MenuPanic == {NoScript, Sc("Panic", 0, 0)}
 OpsConsume == {"New", "CloneRoot", "DropRoot", "AdoptStore", "TakeUnadopt", "Store", "Downgrade", "WeakDrop", "Upgrade",
-               "TryUnwrap", "GetMut", "MakeMut", "IntoRaw", "FromRaw", "IncStrong", "DecStrong", "DropDetached"}
+               "TryUnwrap", "GetMut", "MakeMut", "MakeMutS", "IntoRaw", "FromRaw", "IncStrong", "DecStrong", "DropDetached"}
 VPurge == [bust |-> "owned", loop |-> "ignored", consume |-> "purge"]
 OpsOrder == {"New", "CloneRoot", "DropRoot", "AdoptStore", "TakeUnadopt", "Downgrade", "WeakDrop", "Upgrade",
              "AdoptSame", "UnadoptSame"}
@@ -56,7 +56,7 @@ CapsO == [strong |-> 3, stored |-> 2, rec |-> 2, weak |-> 1, storedW |-> 1, over
 CapsO3 == [strong |-> 2, stored |-> 1, rec |-> 1, weak |-> 0, storedW |-> 0, over |-> FALSE, elide |-> FALSE, scripted |-> 1]
 OpsStd == {"New", "CloneRoot", "CloneStored", "DropRoot", "Store", "Take", "DropStored",
            "Downgrade", "Upgrade", "UpgradeStored", "WeakClone", "WeakDrop", "StoreWeak", "TakeWeak",
-           "TryUnwrap", "GetMut", "MakeMut", "IntoRaw", "FromRaw", "IncStrong", "DecStrong", "DropDetached"}
+           "TryUnwrap", "GetMut", "MakeMut", "MakeMutS", "IntoRaw", "FromRaw", "IncStrong", "DecStrong", "DropDetached"}
 OpsStdM == OpsStd \cup {"Misc"}
 OpsStdQ == {"New", "CloneRoot", "DropRoot", "Store", "DropStored", "Downgrade", "Upgrade", "WeakDrop", "StoreWeak",
             "TryUnwrap", "GetMut", "MakeMut", "IntoRaw", "FromRaw", "DecStrong", "DropDetached"}
